@@ -313,6 +313,72 @@ fn main() {
                 writeln!(out, "#stat {} {}", k, v).unwrap();
             }
         }
+        // For `cargo miri run` (thorough tier): everything in this process, no fork, no raw memory dumps.
+        //   --filter codec : every zoo type once — encode, decode, decode of strict prefixes, and of the same bytes
+        //                    with a hostile leading length word (collections only)
+        //   --filter abi   : every operation of the hand-written interface through a connection, cross-version
+        //                    calls of the family interfaces
+        // Inputs that reach recorded findings (D2: padding bytes written, D8: invalid values through bulk reads)
+        // are not generated here: Miri stops at the first undefined behaviour it sees.
+        "miri" => {
+            let part = a.filter.clone().unwrap_or_else(|| "codec".into());
+            let mut n = 0u64;
+            if part == "codec" {
+                for e in reg.iter() {
+                    if e.name.contains("UnitAndField") || e.tags.contains(&"zstseq") {
+                        continue;
+                    }
+                    if let Some((k, m)) = a.shard {
+                        if (n as usize) % m != k {
+                            n += 1;
+                            continue;
+                        }
+                    }
+                    n += 1;
+                    let v = e.current();
+                    let mut r = Rng::new(name_seed(a.seed, &e.name, 77));
+                    let (_wire, _canon, res) = (e.gen_enc)(&mut r, a.size.min(5), v);
+                    let Ok(bytes) = res else { continue };
+                    let full = (e.dec)(v, &bytes);
+                    if !full.starts_with("(ok ") {
+                        writeln!(out, "!C01 miri-roundtrip type={} got={}", e.name, full).unwrap();
+                    }
+                    for cut in [bytes.len() / 2, bytes.len().saturating_sub(1), 8.min(bytes.len())] {
+                        if cut < bytes.len() {
+                            let _ = (e.dec)(v, &bytes[..cut]);
+                        }
+                    }
+                    let is_seq = ["Vec_", "VecVec_", "String", "Deque_", "BoxSlice_", "ArcSlice_", "HashMap_", "BTreeMap_", "Heap_"].iter().any(|p| e.name.starts_with(p));
+                    if is_seq && bytes.len() >= 8 {
+                        // (absurd lengths end in an allocation request Miri cannot refuse the way the system allocator does)
+                        for hostile in [(bytes.len() as u64) * 3, 70_000, 1_000_001] {
+                            let mut m = bytes.clone();
+                            m[..8].copy_from_slice(&hostile.to_le_bytes());
+                            let rep = (e.dec)(v, &m);
+                            if rep.starts_with("(panic") && !rep.starts_with("(panic oom") {
+                                writeln!(out, "!C06 miri-panic type={} len={} got={}", e.name, hostile, rep).unwrap();
+                            }
+                        }
+                    }
+                }
+                writeln!(out, "#stat miri-codec-types {}", n).unwrap();
+            } else {
+                let mut r = Rng::new(name_seed(a.seed, "miri-abi", 3));
+                for l in abiuse::vals_cases(&mut r, 1, 48) {
+                    writeln!(out, "{}", l).unwrap();
+                }
+                for p in zoo_gen::abi_pairs().iter().filter(|p| p.fam == "FamAdd" || p.fam == "FamNested") {
+                    let mut rr = Rng::new(name_seed(a.seed, p.fam, (p.i * 16 + p.j) as u64));
+                    for l in (p.run)(&mut rr) {
+                        if l.starts_with('!') {
+                            writeln!(out, "{}", l).unwrap();
+                        }
+                        n += 1;
+                    }
+                }
+                writeln!(out, "#stat miri-abi-lines {}", n).unwrap();
+            }
+        }
         // C14: `CryptoWriter` driven by write/flush programs: frame structure vs the model, tamper probes
         "cwprog" => {
             let mut stats: BTreeMap<String, u64> = BTreeMap::new();
@@ -686,6 +752,37 @@ fn main() {
                 }
             }
             stats.insert("xtype-gate-accepted-pairs".into(), twins);
+            // (a') files whose schema section is a structurally changed copy of the type's own schema (one variant or
+            //      field more or less, another primitive, another wrapper, ...) in front of a real payload: the loader
+            //      must answer like the model (reject when the layouts differ) and never panic on such a file
+            {
+                let mut rf = Rng::new(name_seed(a.seed, "foreign-schema", 3));
+                let rounds = a.cases.max(1) * 150;
+                for _ in 0..rounds {
+                    let i = rf.below(n as u64) as usize;
+                    let e = sel[i];
+                    let v = e.current();
+                    let sb = (e.schema_bytes)(v, 2);
+                    let Ok((schema, _)) = schemagen::de_schema(&sb, 2) else { continue };
+                    let (_w, _c, res) = (e.gen_save)(&mut rf, a.size.min(5), v, Kind::Plain);
+                    let Ok(bytes) = res else { continue };
+                    if bytes.len() < 16 + sb.len() || bytes[16..16 + sb.len()] != sb[..] {
+                        continue;
+                    }
+                    let Some((kind, changed)) = schemagen::mutate(&mut rf, &schema) else { continue };
+                    let mut file = bytes[..16].to_vec();
+                    file.extend_from_slice(&schemagen::ser_schema(&changed, 2));
+                    file.extend_from_slice(&bytes[16 + sb.len()..]);
+                    let reply = (e.load)(Kind::Plain, v, PASSWORD, &file);
+                    writeln!(out, "(loadfile plain @{} {} {} {})\t{}", e.name, v, hex(&file), hex(&sb), reply).unwrap();
+                    *stats.entry(format!("foreign-schema-{}", kind)).or_default() += 1;
+                    *stats.entry(format!("foreign-schema-reply-{}", reply.trim_matches(|c| c == '(' || c == ')').split(' ').take(2).collect::<Vec<_>>().join("-"))).or_default() += 1;
+                    if reply.starts_with("(panic") {
+                        writeln!(out, "!C06 file-with-changed-schema-panics type={} change={} got={}", e.name, kind, &reply[..reply.len().min(200)]).unwrap();
+                        writeln!(out, "!C05 file-with-changed-schema-panics type={} change={} got={}", e.name, kind, &reply[..reply.len().min(200)]).unwrap();
+                    }
+                }
+            }
             // (b) sampled pairs
             let npairs = a.cases * 150;
             for k in 0..npairs {
